@@ -4,7 +4,9 @@
 package main
 
 import (
+	"errors"
 	"fmt"
+	"net"
 	"runtime"
 	"strings"
 	"sync"
@@ -456,6 +458,31 @@ func (t *tailPlugin) PostReadPushHeader(erpc.ReadCtx) *erpc.Status {
 
 const quiesce = 10 * time.Second
 
+// faultyConn closes the connection and then REPORTS a failure, as a tls.Conn does when its
+// close_notify cannot be written or a wrapping conn whose peer is already gone: the end of a
+// session must not depend on what Close returns.
+type faultyConn struct{ net.Conn }
+
+func (c faultyConn) Close() error {
+	c.Conn.Close()
+	return errors.New("close fault injected by the harness")
+}
+
+// servePair is hlib.ServePair with an optionally faulty server-side conn.
+func servePair(srv, cli erpc.Peer, faulty bool) *Pair {
+	if !faulty {
+		return ServePair(srv, cli)
+	}
+	cc, sc := TCPPair()
+	p := &Pair{Srv: srv, Cli: cli}
+	var wg sync.WaitGroup
+	wg.Add(2)
+	go func() { defer wg.Done(); p.SrvSess, p.SrvStat = srv.ServeConn(faultyConn{sc}) }()
+	go func() { defer wg.Done(); p.CliSess, p.CliStat = cli.ServeConn(cc) }()
+	wg.Wait()
+	return p
+}
+
 func callable(p *Pair) bool {
 	if p.CliSess == nil {
 		return false
@@ -507,6 +534,7 @@ func caseLive(cfg *RunCfg, st *Stats, w *CaseWriter, idx int) string {
 	var evs, obs, human []string
 	curLim := lim
 	hooks := int64(0) // disconnect hooks that must have run so far
+	broken := false
 	n := 6 + r.Intn(10)
 	fail := func(key, what string) { st.Fail(idx, key, what, strings.Join(human, " ")) }
 
@@ -547,14 +575,18 @@ func caseLive(cfg *RunCfg, st *Stats, w *CaseWriter, idx int) string {
 			e, l := r.Intn(5) != 0, r.Intn(5) != 0
 			atomic.StoreInt32(&pre.reject, b2i(!e))
 			atomic.StoreInt32(&post.reject, b2i(!l))
-			p := ServePair(srv, newCli())
+			faulty := r.Intn(3) == 0
+			if faulty {
+				st.Count("live:conn-with-failing-close")
+			}
+			p := servePair(srv, newCli(), faulty)
 			atomic.StoreInt32(&pre.reject, 0)
 			atomic.StoreInt32(&post.reject, 0)
 			if (!e || !l) && p.SrvSess != nil {
 				fail("refused-admitted", "a connection refused by another accept plugin became a session")
 			}
 			evs = append(evs, VL(VS("acc"), VBool(e), VBool(l)))
-			human = append(human, fmt.Sprintf("acc(earlier=%v,later=%v)->%v", e, l, p.SrvSess != nil))
+			human = append(human, fmt.Sprintf("acc(earlier=%v,later=%v,closefault=%v)->%v", e, l, faulty, p.SrvSess != nil))
 			admit(p, before, e && l)
 		case x < 11:
 			kk := 2 + r.Intn(3)
@@ -563,7 +595,8 @@ func caseLive(cfg *RunCfg, st *Stats, w *CaseWriter, idx int) string {
 			for j := range ps {
 				wg.Add(1)
 				c := newCli()
-				go func(j int) { defer wg.Done(); ps[j] = ServePair(srv, c) }(j)
+				f := r.Intn(3) == 0
+				go func(j int) { defer wg.Done(); ps[j] = servePair(srv, c, f) }(j)
 			}
 			wg.Wait()
 			got := 0
@@ -645,6 +678,9 @@ func caseLive(cfg *RunCfg, st *Stats, w *CaseWriter, idx int) string {
 		// quiescence: every disconnect hook delivered, session hub settled
 		if !WaitUntil(quiesce, func() bool { return atomic.LoadInt64(&tail.disc) >= hooks && srv.CountSession() <= len(live) }) {
 			fail("no-quiescence", fmt.Sprintf("disconnect hooks seen %d, expected %d, CountSession %d, live %d", atomic.LoadInt64(&tail.disc), hooks, srv.CountSession(), len(live)))
+			// a missing hook never arrives later: do not wait for it again and again
+			hooks = atomic.LoadInt64(&tail.disc)
+			broken = true
 		}
 		nc := 0
 		for _, p := range all {
@@ -689,7 +725,11 @@ func caseLive(cfg *RunCfg, st *Stats, w *CaseWriter, idx int) string {
 	}
 	// the remaining sessions' disconnect hooks must be over before the next case starts
 	hooks += int64(len(live))
-	if !WaitUntil(quiesce, func() bool { return atomic.LoadInt64(&tail.disc) >= hooks && srv.CountSession() == 0 }) {
+	endWait := quiesce
+	if broken {
+		endWait = 300 * time.Millisecond
+	}
+	if !WaitUntil(endWait, func() bool { return atomic.LoadInt64(&tail.disc) >= hooks && srv.CountSession() == 0 }) && !broken {
 		fail("no-quiescence", "disconnect hooks missing after closing every connection")
 	}
 	if vc := ol.VerifConn(); vc != nil && (vc.Now() != 0 || vc.Tmp() != 0) {
@@ -1141,7 +1181,7 @@ func main() {
 		}
 	})
 	st := NewStats("C18", cfg)
-	st.Rule = "histories drawn from 7 kinds: cseq/qseq = random op sequences on the limiter handles; cconc/qconc = random forced interleavings of 2-4 goroutines parked at the gate points (plus the lost-update schedule of the refuted theorem); live = accept / refuse-by-earlier-plugin / refuse-by-limit / refuse-by-later-plugin / concurrent batch / close (client or server side) / limit update incl. limiter off and on again (fresh limiter instance) / duplicate disconnect on a real peer; dial = the same with the plugin in the dialing peer; qlive = calls, pushes and harness-driven ticks through a live session; wall = 2 (thorough 8) wall-clock runs of the real plugin with real tickers after limit/interval updates, 1 s of sustained calls. distinct by kind + event string; non-trivial = at least one refusal or one interleaved step"
+	st.Rule = "histories drawn from 7 kinds: cseq/qseq = random op sequences on the limiter handles; cconc/qconc = random forced interleavings of 2-4 goroutines parked at the gate points (plus the lost-update schedule of the refuted theorem); live = accept / refuse-by-earlier-plugin / refuse-by-limit / refuse-by-later-plugin / concurrent batch / close (client or server side) / limit update incl. limiter off and on again (fresh limiter instance) / duplicate disconnect on a real peer, a third of the server-side conns report an error from Close; dial = the same with the plugin in the dialing peer; qlive = calls, pushes and harness-driven ticks through a live session; wall = 2 (thorough 8) wall-clock runs of the real plugin with real tickers after limit/interval updates, 1 s of sustained calls. distinct by kind + event string; non-trivial = at least one refusal or one interleaved step"
 	w := NewCaseWriter(cfg)
 	distinct := DistinctSet{}
 	for i := 0; i < cfg.N; i++ {
